@@ -313,7 +313,7 @@ fn c10_dispatch_pos_7() {
 
 //# harness: c10_dispatch_pos_8
 //# props: C10 C19
-//# tier: quick
+//# tier: extended
 //# encodes: proto::repl (dispatcher: datagram mode and TCP mode with control block)
 //# encodes: smack::Smack::search_next / search_next_end on the real PROTO tables
 //# bounds: payload of 25 bytes completing the signature ONC-RPC call over UDP (XID first byte outside the known shadow class); wildcard and trailing bytes arbitrary; datagram over IPv4 and IPv6 with arbitrary ports/addresses; TCP with a fresh control block, payload cut after byte 3
@@ -336,7 +336,7 @@ fn c10_dispatch_pos_8() {
 
 //# harness: c10_dispatch_pos_9
 //# props: C10 C19
-//# tier: thorough
+//# tier: extended
 //# encodes: proto::repl (dispatcher: datagram mode and TCP mode with control block)
 //# encodes: smack::Smack::search_next / search_next_end on the real PROTO tables
 //# bounds: payload of 29 bytes completing the signature ONC-RPC call over TCP (record mark / XID outside the known shadow classes); wildcard and trailing bytes arbitrary; datagram over IPv4 and IPv6 with arbitrary ports/addresses; TCP with a fresh control block, payload cut after byte 3
@@ -464,16 +464,24 @@ fn dns_via_dispatch() {
 
 //# harness: c19_dns_via_dispatch
 //# props: C19 C14 C10@thorough
-//# tier: quick
+//# tier: thorough
 //# timeout: 900
 //# encodes: proto::repl (datagram mode: matcher, end-of-input step, DNS fallback), proto::dns::DNSPacket::{try_from,repl}
 //# bounds: 12-byte DNS query with QDCOUNT = 0 and symbolic ID (first byte outside the signature start bytes); source/destination ports and IPv4 addresses fully symbolic
-//# stubs: proto_init -> real tables
+//# stubs: proto_init -> real tables; the eight signature-dispatched responders -> tag-returning functions (the symbolic ID keeps the matcher result symbolic for symbolic execution; the DNS fallback path is real)
 //# cover: answered from source port 7
 //# cover: dns answered through the dispatcher
 #[kani::proof]
 #[kani::unwind(40)]
 #[kani::stub(crate::proto::proto_init, crate::proto::verif_proto_init_stub)]
+#[kani::stub(crate::proto::http::repl, tag_http)]
+#[kani::stub(crate::proto::stun::repl, tag_stun)]
+#[kani::stub(crate::proto::ssh::repl, tag_ssh)]
+#[kani::stub(crate::proto::ghost::repl, tag_ghost)]
+#[kani::stub(crate::proto::rpc::repl_tcp, tag_rpc_tcp)]
+#[kani::stub(crate::proto::rpc::repl_udp, tag_rpc_udp)]
+#[kani::stub(crate::proto::smb::repl_smb1, tag_smb1)]
+#[kani::stub(crate::proto::smb::repl_smb2, tag_smb2)]
 fn c19_dns_via_dispatch() {
     dns_via_dispatch()
 }
